@@ -85,6 +85,126 @@ _FILL = ("    def _fill_holes(self):\n"
          "        for (start, end, _) in self.required_ranges().ranges():\n"
          "            self._sharefile.write_share_data(start, b\"\\x00\" * (end - start))\n\n")
 
+# the allocate_buckets loop restructured into 'collect the wanted shares, cut the list to what fits, create the
+# writers in a second loop' (the faithful version of seeded refactor C28-I): the paths travel through a list of tuples
+_ALLOC_LOOP = (
+    '        for shnum in sharenums:\n'
+    '            incominghome = os.path.join(self.incomingdir, si_dir, "%d" % shnum)\n'
+    '            finalhome = os.path.join(self.sharedir, si_dir, "%d" % shnum)\n'
+    '            if os.path.exists(finalhome):\n'
+    '                # great! we already have it. easy.\n'
+    '                pass\n'
+    '            elif os.path.exists(incominghome):\n'
+    "                # For Foolscap we don't create BucketWriters for shnums that\n"
+    '                # have a partial share (in incoming/), so if a second upload\n'
+    '                # occurs while the first is still in progress, the second\n'
+    '                # uploader will use different storage servers.\n'
+    '                pass\n'
+    '            elif (not limited) or (remaining_space >= max_space_per_bucket):\n'
+    '                # ok! we need to create the new share file.\n'
+    '                bw = BucketWriter(self, incominghome, finalhome,\n'
+    '                                  max_space_per_bucket, lease_info,\n'
+    '                                  clock=self._clock)\n'
+    '                if self.no_storage:\n'
+    '                    # Really this should be done by having a separate class for\n'
+    '                    # this situation; see\n'
+    '                    # https://tahoe-lafs.org/trac/tahoe-lafs/ticket/3862\n'
+    '                    bw.throw_out_all_data = True\n'
+    '                bucketwriters[shnum] = bw\n'
+    '                self._bucket_writers[incominghome] = bw\n'
+    '                if limited:\n'
+    '                    remaining_space -= max_space_per_bucket\n'
+    '            else:\n'
+    '                # bummer! not enough space to accept this bucket\n'
+    '                pass\n'
+    '\n'
+)
+
+_ALLOC_TWO_PASS = (
+    '        # Work out which of the requested shares need a new BucketWriter. We\n'
+    '        # skip the ones we already have (great! easy), and for Foolscap we\n'
+    "        # also don't create BucketWriters for shnums that have a partial\n"
+    '        # share (in incoming/), so if a second upload occurs while the first\n'
+    '        # is still in progress, the second uploader will use different\n'
+    '        # storage servers.\n'
+    '        wanted = []\n'
+    '        for shnum in sharenums:\n'
+    '            incominghome = os.path.join(self.incomingdir, si_dir, "%d" % shnum)\n'
+    '            finalhome = os.path.join(self.sharedir, si_dir, "%d" % shnum)\n'
+    '            if os.path.exists(finalhome) or os.path.exists(incominghome):\n'
+    '                continue\n'
+    '            wanted.append((shnum, incominghome, finalhome))\n'
+    '\n'
+    '        if limited:\n'
+    '            # every new bucket reserves max_space_per_bucket, so only this\n'
+    '            # many of them fit in what is left. bummer for the rest: not\n'
+    '            # enough space to accept them.\n'
+    '            if max_space_per_bucket > 0:\n'
+    '                wanted = wanted[:max(0, remaining_space // max_space_per_bucket)]\n'
+    '            elif remaining_space < 0:\n'
+    '                wanted = []\n'
+    '\n'
+    '        for (shnum, incominghome, finalhome) in wanted:\n'
+    '            # ok! we need to create the new share file.\n'
+    '            bw = BucketWriter(self, incominghome, finalhome,\n'
+    '                              max_space_per_bucket, lease_info,\n'
+    '                              clock=self._clock)\n'
+    '            if self.no_storage:\n'
+    '                # Really this should be done by having a separate class for\n'
+    '                # this situation; see\n'
+    '                # https://tahoe-lafs.org/trac/tahoe-lafs/ticket/3862\n'
+    '                bw.throw_out_all_data = True\n'
+    '            bucketwriters[shnum] = bw\n'
+    '            self._bucket_writers[incominghome] = bw\n'
+    '\n'
+)
+
+# cancel_lease rewritten with comprehensions, rewriting only the records behind the first cancelled one (the faithful
+# version of seeded refactor C26-I: the tail is numbered from the slot of the first cancelled lease)
+_CANCEL_BODY = (
+    '        num_leases_removed = 0\n'
+    '        for i,lease in enumerate(leases):\n'
+    '            if lease.is_cancel_secret(cancel_secret):\n'
+    '                leases[i] = None\n'
+    '                num_leases_removed += 1\n'
+    '        if not num_leases_removed:\n'
+    '            raise IndexError("unable to find matching lease to cancel")\n'
+    '        if num_leases_removed:\n'
+    '            # pack and write out the remaining leases. We write these out in\n'
+    '            # the same order as they were added, so that if we crash while\n'
+    "            # doing this, we won't lose any non-cancelled leases.\n"
+    '            leases = [l for l in leases if l] # remove the cancelled leases\n'
+    "            with open(self.home, 'rb+') as f:\n"
+    '                for i, lease in enumerate(leases):\n'
+    '                    self._write_lease_record(f, i, lease)\n'
+    '                self._write_num_leases(f, len(leases))\n'
+    '                self._truncate_leases(f, len(leases))\n'
+    '        space_freed = self.LEASE_SIZE * num_leases_removed\n'
+    '        if not len(leases):\n'
+)
+
+_CANCEL_TAIL_ONLY = (
+    '        cancelled = [i for (i, lease) in enumerate(leases)\n'
+    '                     if lease.is_cancel_secret(cancel_secret)]\n'
+    '        if not cancelled:\n'
+    '            raise IndexError("unable to find matching lease to cancel")\n'
+    '        remaining = [lease for (i, lease) in enumerate(leases)\n'
+    '                     if i not in cancelled]\n'
+    '        # pack and write out the remaining leases. The records in front of\n'
+    '        # the first cancelled lease already sit in their final slot, only the\n'
+    '        # ones behind it move down. We write these out in the same order as\n'
+    "        # they were added, so that if we crash while doing this, we won't\n"
+    '        # lose any non-cancelled leases.\n'
+    '        first = cancelled[0]\n'
+    "        with open(self.home, 'rb+') as f:\n"
+    '            for i, lease in enumerate(remaining[first:], first):\n'
+    '                self._write_lease_record(f, i, lease)\n'
+    '            self._write_num_leases(f, len(remaining))\n'
+    '            self._truncate_leases(f, len(remaining))\n'
+    '        space_freed = self.LEASE_SIZE * len(cancelled)\n'
+    '        if not remaining:\n'
+)
+
 MUTANTS = [
     # ---- C29.1 add_lease ordering
     M("count-before-record", IMM, _ADD,
@@ -400,5 +520,26 @@ MUTANTS = [
     M("vanish-hashed-serializer", LSCH, "class HashedLeaseSerializer:", "class HashedLeaseSerializerV2:", "ANALYSIS-ERROR",
       edits=[(LSCH, "v2_immutable = HashedLeaseSerializer(", "v2_immutable = HashedLeaseSerializerV2("),
              (LSCH, "v2_mutable = HashedLeaseSerializer(", "v2_mutable = HashedLeaseSerializerV2(")]),
+    # ---- refactored shape: paths carried from a first loop to the BucketWriter call through a list of tuples
+    M("benign-alloc-two-pass-faithful", SRV, _ALLOC_LOOP, _ALLOC_TWO_PASS, None),
+    M("two-pass-tuple-order-swapped", SRV, _ALLOC_LOOP,
+      _ALLOC_TWO_PASS.replace("wanted.append((shnum, incominghome, finalhome))", "wanted.append((shnum, finalhome, incominghome))"),
+      "C29.3"),
+    M("two-pass-partial-upload-outside-incoming", SRV, _ALLOC_LOOP,
+      _ALLOC_TWO_PASS.replace("os.path.join(self.incomingdir, si_dir,", "os.path.join(self.sharedir, si_dir, \"partial\","),
+      "C29.3"),
+    M("benign-cancel-tail-only-faithful", IMM, _CANCEL_BODY, _CANCEL_TAIL_ONLY, None),
+    M("benign-cancel-tail-only-start-keyword", IMM, _CANCEL_BODY,
+      _CANCEL_TAIL_ONLY.replace("enumerate(remaining[first:], first)", "enumerate(remaining[first:], start=first)"), None),
+    M("cancel-tail-written-from-slot-0", IMM, _CANCEL_BODY,          # the seeded slip (C26-I)
+      _CANCEL_TAIL_ONLY.replace("enumerate(remaining[first:], first)", "enumerate(remaining[first:])"), "C29.2"),
+    M("cancel-tail-numbered-one-too-high", IMM, _CANCEL_BODY,
+      _CANCEL_TAIL_ONLY.replace("enumerate(remaining[first:], first)", "enumerate(remaining[first:], first + 1)"), "C29.2"),
+    M("cancel-tail-only-keeps-the-cancelled", IMM, _CANCEL_BODY,
+      _CANCEL_TAIL_ONLY.replace("if i not in cancelled]", "if i in cancelled]"), "ANALYSIS-ERROR"),
+    M("cancel-tail-from-last-cancelled", IMM, _CANCEL_BODY,
+      _CANCEL_TAIL_ONLY.replace("first = cancelled[0]", "first = cancelled[-1]"), "ANALYSIS-ERROR"),
+    M("cancel-tail-only-unlink-when-any-cancelled", IMM, _CANCEL_BODY,
+      _CANCEL_TAIL_ONLY.replace("        if not remaining:\n", "        if cancelled:\n"), "C29.2"),
     M("vanish-clean-incomplete", SRV, "    def _clean_incomplete(self):", "    def _clean_partial(self):", "ANALYSIS-ERROR"),
 ]
